@@ -71,7 +71,7 @@ def run(tier, seed):
     chk = core.Check("C19", tier, "exploration",
                      "for each of 11 types a boundary value set V_T (5-11 values: extremes, -0.0, decimals differing only in scale, leap dates, equal intervals written differently, blobs): all pairs/triples for "
                      "equivalence and total-order laws of the SQL operators; agreement of =, <, ORDER BY asc/desc, GROUP BY, DISTINCT, hash join, MIN/MAX on both engines; primary-key storage order on disk (2 row-sets, before/after compaction); "
-                     "print -> insert-as-text round trip; a case = (type, engine, law); non-trivial = every case", seed)
+                     "print -> insert-as-text round trip; for each ordered pair of integer types the six comparison operators and hash-join equality between columns of the two types against integer comparison (values beyond the narrower range included); a case = (type, engine, law); non-trivial = every case", seed)
     items = [(ty, engine) for ty in V for engine in ("mem", "disk")]
     built = [script(ty, e, False) for ty, e in items]
     res = runner.run_many("sql", [b[0] for b in built], timeout=120)
@@ -200,6 +200,43 @@ def run(tier, seed):
             chk.fail(cid, "pk-storage-order-differs@" + ty, base, {"orderby": want, "scan": before, "scan_after_compaction": after}, outcome="pk-order")
         else:
             chk.ok(cid, outcome="pk-order-agrees", sample=base)
+    # ---- integers of different widths: the six comparison operators, in both orientations, and hash-join equality between a
+    # column of type T1 and a column of type T2 must be the comparison of the mathematical integers (values beyond the narrower
+    # type's range included: a kernel that narrows instead of widening wraps them)
+    ints = ["smallint", "int", "bigint"]
+    extra = {"smallint": ["1", "5"], "int": ["32768", "65536", "-32769", "65541"], "bigint": ["32768", "65536", "4294967296", "-4294967291", "2147483648", "-2147483649", "1", "5", "65541"]}
+    xitems, xscripts = [], []
+    for t1, t2 in itertools.permutations(ints, 2):
+        for engine in ("mem", "disk"):
+            a, b = V[t1] + extra[t1], V[t2] + extra[t2]
+            steps = [{"sql": f"create table v(id int, x {t1})"}, {"sql": f"create table w(id int, y {t2})"},
+                     {"sql": "insert into v values " + ", ".join(f"({i}, {lit})" for i, lit in enumerate(a))},
+                     {"sql": "insert into w values " + ", ".join(f"({i}, {lit})" for i, lit in enumerate(b))},
+                     {"sql": "select l.id, r.id, l.x = r.y, l.x <> r.y, l.x < r.y, l.x <= r.y, l.x > r.y, l.x >= r.y from v l, w r"},
+                     {"sql": "select l.id, r.id from v l join w r on l.x = r.y"}]
+            xitems.append((t1, t2, engine, a, b))
+            xscripts.append({"id": 0, "engine": engine, "opts": {"block": 64, "rowset": 1 << 20}, "steps": steps})
+    for (t1, t2, engine, a, b), r in zip(xitems, runner.run_many("sql", xscripts, timeout=120)):
+        base = {"type": f"{t1} x {t2}", "engine": engine, "law": "mixed-width comparison == integer comparison"}
+        cid = core.case_id(base)
+        if r.get("abort") or any(U.status(x) != "rows" for x in r["results"]):
+            chk.fail(cid, f"mixed-width-comparison-fails@{t1}+{t2}", base, r.get("results", r))
+            continue
+        ia, ib = [int(x) for x in a], [int(x) for x in b]
+        wrong = []
+        for row in U.decode(r["results"][4]):
+            x, y = ia[row[0]], ib[row[1]]
+            want = (x == y, x != y, x < y, x <= y, x > y, x >= y)
+            if tuple(row[2:]) != want:
+                wrong.append({"x": x, "y": y, "= <> < <= > >=": list(row[2:]), "want": list(want)})
+        joined = sorted((ia[i], ib[j]) for i, j in U.decode(r["results"][5]))
+        wantj = sorted((x, y) for x in ia for y in ib if x == y)
+        if wrong:
+            chk.fail(cid, f"mixed-width-comparison-wrong@{t1}+{t2}", base, wrong[:6], outcome="mixed-width")
+        elif joined != wantj:
+            chk.fail(cid, f"mixed-width-join-equality-wrong@{t1}+{t2}", base, {"joined": joined[:8], "want": wantj[:8]}, outcome="mixed-width")
+        else:
+            chk.ok(cid, outcome="mixed-width-agrees", sample=base)
     chk.assumptions += ["NaN and infinities are not in the double domain (no literal syntax reaches them); vectors are excluded (no ordering defined)"]
     return chk
 
